@@ -345,6 +345,7 @@ DEFAULT_PROFILE = dict(
     p_ts_bytes_default=0.0,     # K16: emitted as str, refused by the runtime
     p_multi_pos_custom=0.0,     # K8
     p_three_part_field_ref=0.0,  # K22 (swift/objc _docf)
+    p_linebreak_literal=0.0,     # string literals ending in a line break / holding line separators
     p_shared_anntype_name=0.0,   # an annotation type named like one of another namespace
     p_odd_alias_name=0.0,        # alias names not in canonical Pascal case
     p_alias_of_alias=0.0,        # alias whose target is another alias
@@ -606,6 +607,15 @@ class Gen:
         s = ''.join(r.choice(alphabet) for _ in range(n))
         if n > 2 and r.random() < 0.3:
             s = s[:1] + ' ' + s[2:]
+        if n >= 1 and self.p['p_linebreak_literal'] and r.random() < self.p['p_linebreak_literal']:
+            # literals ending in a line break, or holding other line separators
+            s = s[:-1] + r.choice(['\n', '\u2028', '\x0b'])
+            self.m.feature('literal_with_line_separator')
+        elif n >= 2 and not t.args and self.p['p_linebreak_literal'] and \
+                r.random() < self.p['p_linebreak_literal']:
+            # a run of spaces as long as a block's indentation inside the literal
+            s = s[:1] + ' ' * r.choice([4, 8, 12]) + s[1:]
+            self.m.feature('literal_with_inner_space_run')
         return s
 
     def ts_in(self, t):
